@@ -92,10 +92,12 @@ func init() {
 		cfgs := []*HarnessCfg{
 			{Name: "VerifC10_MatcherOrder", Pkg: diffPkg, Solver: "cvc5", TimeoutMs: 60000, MaxPaths: 2000000, MapOrderSym: true, EngineReplay: true,
 				Params: map[string]int64{"maxfuncs": mf}, Stubs: matcherStubs()},
+			{Name: "VerifC10_WorkerOrder", Pkg: cliPkg, Solver: "z3", MaxPaths: 400000, EngineReplay: true, Params: map[string]int64{"schedsym": 1}, Stubs: c16LoaderStubs()},
 		}
 		c.Assumptions = append(c.Assumptions,
 			"partial: the sources of run-to-run variation that are data - Go's map iteration order inside diff.MatchFunctionsByTopology (two executions with independent solver-chosen orders must agree) and the arrival order of per-file alert batches (the 'Deterministic Sort' comparator of cli.RunScanLogic must be a total order on JSON-visible fields)",
 			"files of up to 2 (thorough 3) functions per side, analyses stubbed as in C09; alerts with string fields of up to 2 bytes",
+			"worker scheduling of the per-file check workers at block granularity: ProcessFilesParallel is run twice over three files (loader/read failures symbolic, strict mode symbolic), each time with the workers executed to completion in an independent solver-chosen order; the two reports must agree. Interleavings inside a worker are not explored",
 			"goroutine scheduling inside go/packages, the JSON encoder, and everything downstream of C01 (fingerprint determinism) are NOT covered")
 		c.runModeT([]string{"pkg/diff", "internal/cli"}, cfgs)
 		// engine-level harness on the already loaded packages
